@@ -476,7 +476,7 @@ func ruleConstants(c *Ctx, rule string) {
 					return
 				}
 				// the flow-controlled receiver constructor: returns receiver[T] and takes a uint32 window as last arg
-				if strings.HasPrefix(f.Name(), "newReceiver") && len(call.Call.Args) == 3 {
+				if w.sameFn(f, w.roleFunc("newReceiver")) && len(call.Call.Args) == 3 {
 					found = true
 					k2, ok2 := constInt(call.Call.Args[2])
 					c.check(ok2 && k2 == k, rule, emitKey(w, e)+": advertised == enforced", w.At(call), fmt.Sprintf("advertised %d, receiver constructed with %d", k, k2), fmt.Sprintf("this end advertises a window of %d but constructs its receiver with %s: a conforming peer is rejected, or the bound is not enforced", k, desc(call.Call.Args[2])))
@@ -499,7 +499,7 @@ func ruleConstants(c *Ctx, rule string) {
 				return
 			}
 			f := staticCallee(call)
-			if f == nil || !w.inRoot(f) || f.Name() != "newSender" {
+			if f == nil || !w.inRoot(f) || !w.sameFn(f, w.roleFunc("newSender")) {
 				return
 			}
 			d := desc(call.Call.Args[1])
@@ -525,7 +525,7 @@ func (c *Ctx) receivers() *recvImpls {
 	for _, nt := range w.rootStructs() {
 		hasDeq := false
 		for _, fn := range w.Funcs {
-			if fn.Parent() == nil && fn.Name() == "dequeue" {
+			if fn.Parent() == nil && fn.Name() == w.mName("dequeue") {
 				if n := recvNamed(fn); n != nil && n.Obj() == nt.Obj() {
 					hasDeq = true
 				}
@@ -557,13 +557,13 @@ func (c *Ctx) receivers() *recvImpls {
 		}
 		if r.fc != nil && n.Obj() == r.fc.Obj() {
 			switch fn.Name() {
-			case "accept":
+			case w.mName("accept"):
 				r.accept = append(r.accept, fn)
-			case "dequeue":
+			case w.mName("dequeue"):
 				r.dequeue = append(r.dequeue, fn)
-			case "close":
+			case w.mName("close"):
 				r.closeFn = append(r.closeFn, fn)
-			case "cancel":
+			case w.mName("cancel"):
 				r.cancel = append(r.cancel, fn)
 			default:
 				r.handle = append(r.handle, fn)
@@ -571,11 +571,11 @@ func (c *Ctx) receivers() *recvImpls {
 		}
 		if r.plain != nil && n.Obj() == r.plain.Obj() {
 			switch fn.Name() {
-			case "accept":
+			case w.mName("accept"):
 				r.pAccept = append(r.pAccept, fn)
-			case "dequeue":
+			case w.mName("dequeue"):
 				r.pDeq = append(r.pDeq, fn)
-			case "close":
+			case w.mName("close"):
 				r.pClose = append(r.pClose, fn)
 			}
 		}
@@ -848,7 +848,7 @@ func ruleCreditIdentity(c *Ctx, rule string) {
 				return
 			}
 			f := staticCallee(call)
-			if f == nil || !w.inRoot(f) || !strings.HasPrefix(f.Name(), "newReceiver") || len(call.Call.Args) != 3 {
+			if f == nil || !w.inRoot(f) || !w.sameFn(f, w.roleFunc("newReceiver")) || len(call.Call.Args) != 3 {
 				return
 			}
 			var mf *ssa.Function
@@ -1163,7 +1163,7 @@ func ruleSingleConsumer(c *Ctx, rule string) {
 		}
 		allInstrs(fn, func(in ssa.Instruction) {
 			call, ok := in.(ssa.CallInstruction)
-			if !ok || !call.Common().IsInvoke() || call.Common().Method.Name() != "dequeue" {
+			if !ok || !call.Common().IsInvoke() || call.Common().Method.Name() != w.mName("dequeue") {
 				return
 			}
 			n++
